@@ -41,15 +41,33 @@ def p1_patterns(rng, n):
     yield "ident_line_very_long_data_line", b"/ABC5xyz\r\n" + b"y" * n
 
 
-def deep_size_hdlc(r):
-    s = sys.getsizeof(r._buffer._buffer) + sys.getsizeof(r._raw_frame_data)
-    if r._frame is not None:
-        s += sys.getsizeof(r._frame._frame_data)
-    return s
-
-
-def deep_size_p1(r):
-    return sys.getsizeof(r._buffer._buffer) + sys.getsizeof(r._raw_data)
+def retained(obj):
+    """(total length, total sys.getsizeof) of every bytes / bytearray reachable from obj through the attributes of
+    objects whose class is defined in the library, and through lists / tuples / dicts / sets - what the reader keeps
+    alive, measured without naming any private attribute"""
+    seen = set()
+    total_len = total_size = 0
+    stack = [obj]
+    while stack:
+        o = stack.pop()
+        if id(o) in seen:
+            continue
+        seen.add(id(o))
+        if isinstance(o, (bytes, bytearray, memoryview)):
+            total_len += len(o)
+            total_size += sys.getsizeof(o)
+        elif isinstance(o, (list, tuple, set, frozenset)):
+            stack.extend(o)
+        elif isinstance(o, dict):
+            stack.extend(o.values())
+        elif type(o).__module__.startswith("han."):
+            d = getattr(o, "__dict__", None)
+            if d:
+                stack.extend(d.values())
+            for name in getattr(type(o), "__slots__", ()):
+                if hasattr(o, name):
+                    stack.append(getattr(o, name))
+    return total_len, total_size
 
 
 def _model_vs_impl(res, tier, rng):
@@ -112,8 +130,7 @@ def _soak(res, tier, rng):
                 for k, i in enumerate(range(0, len(data), cs)):
                     r.read(data[i:i + cs])
                     if k % every == 0 or k == ncalls - 1:
-                        logical = len(r._buffer._buffer) + len(r._raw_frame_data) + (len(r._frame) if r._frame is not None else 0)
-                        deep = deep_size_hdlc(r)
+                        logical, deep = retained(r)
                         worst_h = max(worst_h, logical)
                         res.evaluations += 1
                         case = {"op": "soak.hdlc", "cfg": list(cfg), "pattern": name, "chunk": cs, "fed": i + cs}
@@ -135,9 +152,8 @@ def _soak(res, tier, rng):
                 chunk = d[i:i + cs]
                 r.read(chunk)
                 if k % every == 0 or k == ncalls - 1:
-                    logical = len(r._buffer._buffer) + len(r._raw_data)
+                    logical, deep = retained(r)
                     bound = 2 * 8191 + 2 * len(chunk)
-                    deep = deep_size_p1(r)
                     worst_p = max(worst_p, logical - 2 * len(chunk))
                     res.evaluations += 1
                     case = {"op": "soak.p1", "pattern": name, "chunk": cs, "fed": i + cs}
